@@ -10,7 +10,7 @@
    unset removes the first match, set removes it and appends the new item. *)
 From Coq Require Import List NArith Bool.
 From Coq Require Import Strings.Byte.
-From Falco Require Import Base.Bytes Model.HdrField Model.Hdr.
+From Falco Require Import Base.Bytes Model.HdrField Model.HdrCookie Model.Hdr.
 Import ListNotations.
 
 (* ------------------------------------------------------------------ level 2: items *)
@@ -133,6 +133,8 @@ Inductive sop :=
 | SRemove (cn : bytes)
 | SRemoveField (cn key : bytes)
 | SRemovePrefix (p : bytes)
+| SCookieWrite (cn key s : bytes)             (* set req.http.Cookie:key *)
+| SCookieRemove (cn key : bytes)              (* unset req.http.Cookie:key *)
 | SRefuse
 | SUnmod.
 
@@ -146,7 +148,7 @@ Definition classify (kd : kind) (o : op) : sop :=
     let '(n, key, found) := cut_colon name in
     if negb found then SWrite (canon n) v
     else match kd with
-         | KReq => if is_cookie n then SUnmod else SWriteField (canon n) key v
+         | KReq => if is_cookie n then SCookieWrite (canon n) key (val_string v) else SWriteField (canon n) key v
          | KResp => SWriteField (canon n) key v
          end
   | OAdd name v => if protected name then SRefuse else SAppend (canon name) (val_string v)
@@ -158,7 +160,7 @@ Definition classify (kd : kind) (o : op) : sop :=
       let '(n, key, found) := cut_colon name in
       if negb found then SRemove (canon n)
       else match kd with
-           | KReq => if is_cookie n then SUnmod else SRemoveField (canon n) key
+           | KReq => if is_cookie n then SCookieRemove (canon n) key else SRemoveField (canon n) key
            | KResp => SRemoveField (canon n) key
            end
     end
@@ -167,13 +169,18 @@ Definition classify (kd : kind) (o : op) : sop :=
 Definition first_val (a : astate) (cn : bytes) : bytes :=
   match a_vals a cn with Some (v :: _) => v | _ => [] end.
 
+Definition all_vals (a : astate) (cn : bytes) : list bytes :=
+  match a_vals a cn with Some l => l | None => [] end.
+
 Definition sstep (a : astate) (s : sop) : astate * obs :=
   match s with
   | SRead cn key cookie =>
     let v := first_val a cn in
     (a, if is_nil v then ORead (if negb (is_nil key) || negb (a_asg a cn) then RNotSet else RStr [])
         else if is_nil key then ORead (RStr v)
-        else if cookie then OUnmodelled else ORead (get_field v key))
+        else if cookie then
+          ORead (match cookie_get (all_vals a cn) key with Some c => RStr c | None => get_field v key end)
+        else ORead (get_field v key))
   | SWrite cn VNotSet =>
     ({| a_vals := upd (a_vals a) cn None; a_asg := upd (a_asg a) cn false |}, OOk)
   | SWrite cn (VStr s) =>
@@ -192,6 +199,16 @@ Definition sstep (a : astate) (s : sop) : astate * obs :=
         a_asg := upd (a_asg a) cn false |}, OOk)
   | SRemovePrefix p =>
     ({| a_vals := fun n => if is_prefix p n then None else a_vals a n; a_asg := a_asg a |}, OOk)
+  | SCookieWrite cn key s =>
+    ({| a_vals := upd (a_vals a) cn (Some (cookie_set (all_vals a cn) key s)); a_asg := a_asg a |}, OOk)
+  | SCookieRemove cn key =>
+    (match all_vals a cn with
+     | [] => a
+     | lines => match remove_cookie lines key with
+                | [] => {| a_vals := upd (a_vals a) cn None; a_asg := a_asg a |}
+                | l => {| a_vals := upd (a_vals a) cn (Some l); a_asg := a_asg a |}
+                end
+     end, OOk)
   | SRefuse => (a, OErr)
   | SUnmod => (a, OUnmodelled)
   end.
